@@ -40,6 +40,9 @@ STRENGTHENED = {
     "C20-6": "C20 engine sub-check: databases created by the engine through absolute / relative / ./relative / unclean paths and reopened through the same path",
     "C16-4": "C16: lifecycle moment 'manager stopped, service still answering': a node that still reports role replica must still refuse every client mutation",
     "C16-5": "C16: client transactions (ro, refused rw, service handle) held open across replicated applies, with a progress bound on every apply and call",
+    "C14-5": "C14: generated heartbeat configuration (200 ms, timeout 0.7-2 s, with/without empty heartbeats) so that idle periods exceed the timeout before more writes",
+    "C14-6": "C14: 'huge value' class (single puts of 260 KiB-1.5 MiB that a late-joining / restarted / lagging replica has to fetch)",
+    "C15-6": "C15: 'reconnect_storm' fault class (streams registered and cancelled in a tight loop, heartbeat every 1-5 ms); a primary killed by the Go runtime is a violation",
     "C13-4": "C13: real Replica state machine with injected transient apply failures (error state -> recovery -> new stream)",
     "C15-4": "C15: primary with a pre-history (older log files in the directory) so that the ack path's retention pass has work to do",
 }
